@@ -15,7 +15,7 @@ func init() {
 		Explain: "Decided clauses (thin): R1 getOffer returns \"\" or an element of its offers argument; Format calls only the handler whose MediaType equals the accepted value, the default handler, or answers 406; " +
 			"R2 from the quality == 0 edge a range is never added to the candidates; R3 the insertion condition of sortAcceptedTypes, evaluated on all 81 sign vectors of (quality, specificity, #params, order), is true exactly when the " +
 			"element is strictly worse in the order quality desc, specificity desc, params desc, position asc, and the surrounding binary insertion moves lo/hi the right way; R4 no offers ⇒ \"\" and absent header ⇒ first offer, before any parsing; " +
-			"R5 a pooled parameter map is cleared before use and not used after it was put back. Not decided (honest not-applicable): the acceptability predicates (acceptsOffer*, paramsMatch), quote/whitespace handling, the optimised q parser — value-level semantics.",
+			"R5 a pooled parameter map is cleared before use and not used after it was put back; R6 every weight is parsed from a delimited parameter value (the visitor's value, or a slice proven to contain no further ';'). Not decided (honest not-applicable): the acceptability predicates (acceptsOffer*, paramsMatch), quote/whitespace handling, ParseUfloat itself — value-level semantics.",
 		Assume: []string{"keys are touched only through <, ==, > (checked: any other use makes the instance undecided)"},
 		Run:    runC09,
 	})
@@ -324,6 +324,69 @@ func runC09(r *Run) {
 	})
 
 	r.rule("R5", "pooled parameter maps: cleared before reuse, not used after Put (E4a/E1)", func() { pooledParamMapRule(r) })
+
+	r.rule("R6", "a weight is parsed from a delimited parameter value: ParseUfloat sees the visitor's value or a slice proven to hold no further ';' (E1)", func() {
+		f := r.Fn("", "getOffer")
+		fs := append([]*ssa.Function{f}, anonFuncsDeep(f)...)
+		// closures handed to the header-parameter visitor: their value parameter is delimited by fasthttp
+		visitorCb := map[*ssa.Function]bool{}
+		for _, g := range fs {
+			for _, c := range callsMatching(g, false, nameHasSuffix("fasthttp.VisitHeaderParams")) {
+				for _, a := range c.Common.Args {
+					if mc, ok := a.(*ssa.MakeClosure); ok {
+						visitorCb[mc.Fn.(*ssa.Function)] = true
+					} else if fn, ok := a.(*ssa.Function); ok {
+						visitorCb[fn] = true
+					}
+				}
+			}
+		}
+		n := 0
+		for _, g := range fs {
+			for _, c := range callsMatching(g, false, nameHasSuffix("fasthttp.ParseUfloat")) {
+				n++
+				arg := stripValue(c.Common.Args[0])
+				okArg, how := false, ""
+				if p, isP := arg.(*ssa.Parameter); isP && visitorCb[g] {
+					okArg, how = true, "the visitor's "+p.Name()
+				}
+				if sl, isS := arg.(*ssa.Slice); isS && !okArg {
+					if sl.High != nil {
+						if dependsOn(sl.High, func(v ssa.Value) bool {
+							cc, ok := v.(*ssa.Call)
+							return ok && strings.HasSuffix(calleeName(&cc.Call), ".IndexByte")
+						}) != nil {
+							okArg, how = true, "a slice that ends at the next delimiter"
+						}
+					} else {
+						cut := map[edge]bool{}
+						for _, ib := range callsMatching(g, false, nameIs("bytes.IndexByte", "strings.IndexByte")) {
+							hay, isSl := ib.Common.Args[0].(*ssa.Slice)
+							if !isSl || hay.High != nil || !sameValue(hay.X, sl.X) || !sameValue(hay.Low, sl.Low) {
+								continue
+							}
+							if b, ok := constInt(asConst(ib.Common.Args[1])); !ok || b != ';' {
+								continue
+							}
+							for _, br := range ifsOnValue(g, ib.Value()) {
+								if s, ok := br.eqIntSlot(-1, true); ok {
+									cut[edge{br.If.Block(), s}] = true
+								}
+							}
+						}
+						if len(cut) > 0 {
+							if _, hit := reach(entryOf(g), func(in ssa.Instruction) bool { return in == c.Instr }, cut, nil); hit == nil {
+								okArg, how = true, "an open slice reached only when no further ';' follows"
+							}
+						}
+					}
+				}
+				r.check(okArg, fmt.Sprintf("%s:q-value-delimited#%d", short(g.String()), n), r.pos(c.Instr), "ParseUfloat is given "+how,
+					"the weight parser is handed text that may run into the next parameter (`;q=0;level=1`): ParseUfloat fails, the error is dropped and the range keeps q=1 — a range the client refused (q=0) or ranked low selects an offer")
+			}
+		}
+		r.atLeast("ParseUfloat call sites", n, 2)
+	})
 }
 
 // pooledParamMapRule is shared by C09-R5 and C05-R5: a map taken from headerParamPool must be empty
